@@ -31,7 +31,7 @@ DEATH_IS_VIOLATION = True
 XS = {"quick": [5.0, 0.1, 20.0], "thorough": [5.0, 0.1, 1.0, 10.0, 20.0]}
 MS = {"quick": [1.2, 1.2 + 0.01j],
       "thorough": [1.2, 1.59 / 1.33, 1.2 + 0.01j]}
-THETA = [0.0, 0.1, 0.5, 1.0, 2.0, 3.0]
+THETA = [0.0, 1e-3, 3e-3, 0.1, 0.5, 1.0, 2.0, 3.0]
 PHI = [0.0, 0.5, 1.0, math.pi / 2, math.pi, 4.0, 5.5]
 ORI = [(0.4, 0.7), (0.0, 0.0), (math.pi / 2, 2.0), (1.2, 5.0)]
 SHAPES = {  # name -> (kind, aspect) ; sizes given by equal-volume x
@@ -56,9 +56,11 @@ def cases(tier, seed):
         for m in MS[tier]:
             out.append({"id": "sphere:x=%r:m=%r" % (x, m), "kind": "sphere",
                         "x": x, "m": [complex(m).real, complex(m).imag]})
-    for i, (b, g) in enumerate(ORI):
-        out.append({"id": "equalaxes:ori#%d" % i, "kind": "equalaxes",
-                    "beta": b, "gamma": g})
+    for i, (b, g) in enumerate(ORI + [(3e-3, 0.7), (math.pi - 2e-3, 1.0)]):
+        for n in (1.59, 1.59 + 0.02j, 1.45 + 0.3j):
+            out.append({"id": "equalaxes:ori#%d:n=%r" % (i, n),
+                        "kind": "equalaxes", "beta": b, "gamma": g,
+                        "n": [complex(n).real, complex(n).imag]})
     for sh in SYM_SHAPES[tier]:
         for i, (b, g) in enumerate(ORI):
             out.append({"id": "sym:%s:ori#%d" % (sh, i), "kind": "sym",
@@ -269,12 +271,14 @@ def _run_equalaxes(case, ck):
     from holopy.scattering import (Sphere, Spheroid, Tmatrix,
                                    calc_scat_matrix, calc_field)
     b, g = case["beta"], case["gamma"]
+    nidx = complex(*case["n"])
+    nidx = nidx.real if nidx.imag == 0 else nidx
     a = 5.0 / H.K
     th = np.repeat(THETA, len(PHI))
     ph = np.tile(PHI, len(THETA))
     det = hp.detector_points(theta=th, phi=ph)
-    sph = Sphere(n=1.59, r=a, center=CENTER)
-    spo = Spheroid(n=1.59, r=(a, a), rotation=(0.3, b, g), center=CENTER)
+    sph = Sphere(n=nidx, r=a, center=CENTER)
+    spo = Spheroid(n=nidx, r=(a, a), rotation=(0.3, b, g), center=CENTER)
     S = calc_scat_matrix(det, spo, H.NMED, H.WL, theory=Tmatrix()).values
     T = calc_scat_matrix(det, sph, H.NMED, H.WL, theory=Tmatrix()).values
     ck.trans += 2
